@@ -3,3 +3,8 @@ import PasslibVerif.Props.C06
 import PasslibVerif.Props.C12
 import PasslibVerif.Props.C13
 import PasslibVerif.Props.C14
+import PasslibVerif.Props.C16
+import PasslibVerif.Spec.Pbkdf
+import PasslibVerif.Spec.SHA512
+import PasslibVerif.Spec.SHA1
+import PasslibVerif.Spec.MD4
